@@ -107,6 +107,38 @@ def clean_histories(draw, with_tool=True, focus=None):
             stage["clean_tool"] = {"paths": paths, "commit": draw(st.integers(0, 3)) != 0,
                                    "all": draw(st.booleans()), "unsafe": draw(st.integers(0, 3)) == 0,
                                    "user_actions": tool_actions}
+    # A producer renames its output while a newly defined consumer still names the old path: the
+    # build is incomplete (no cleanup), the orphaned output node is re-created for the new
+    # consumer; in the next stage the consumer is corrected and the build succeeds, so the old
+    # file has to go.
+    last = stages[-1]["spec"]
+    producers = [n for n in specgen.active_steps(last)
+                 if last["steps"][n]["out"] and not last["steps"][n].get("fail")
+                 and last["steps"][n].get("need", "default") == "default"]
+    if producers and draw(st.integers(0, 3)) == 0:
+        import copy as _copy
+
+        n = draw(st.sampled_from(producers))
+        spec_a = _copy.deepcopy(last)
+        old = spec_a["steps"][n]["out"][0]
+        new = old.replace(".out", "r.out")
+        spec_a["steps"][n]["out"][0] = new
+        spec_a["steps"]["stale"] = {
+            "script": "stale.py", "args": [], "workdir": ".", "inp": [old],
+            "out": ["gen/stale.out"], "vol": [], "env": [], "need": "default", "resources": {},
+            "amend_inp": [], "amend_out": [], "read_first": False, "fail": None,
+            "partial": False, "variant": 0}
+        spec_a["plans"]["plan.py"]["items"].append(["step", "stale"])
+        spec_b = _copy.deepcopy(spec_a)
+        for other in spec_b["steps"].values():
+            other["inp"] = [new if q == old else q for q in other["inp"]]
+            other["amend_inp"] = [new if q == old else q for q in other["amend_inp"]]
+        build = dict(stages[-1]["build"], do_clean=True, user_actions=[])
+        build.pop("targets", None)
+        stages.append({"edit": [["stale_consumer_of_renamed_output", n, old]], "spec": spec_a,
+                       "build": dict(build)})
+        stages.append({"edit": [["consumer_corrected", n, new]], "spec": spec_b,
+                       "build": dict(build)})
     return {"stages": stages}
 
 
@@ -175,7 +207,7 @@ def static_paths(tables):
 
 
 def check_deletions(prop, where, before, after, ledger, *, unsafe=False, user_removed=(),
-                    static=()):
+                    static=(), written_now=None):
     """C06 oracle for one invocation (a build or a `stepup clean` call).
 
     `static`: paths declared static in the workflow at the time of the invocation. A file the
@@ -185,6 +217,11 @@ def check_deletions(prop, where, before, after, ledger, *, unsafe=False, user_re
     files = [p for p in files if p not in user_removed]
     for p in files:
         entry = before[p]
+        # A file that a step of this very build rewrote before StepUp deleted it had, at the
+        # moment of deletion, the content of that last write, not the content of the snapshot
+        # taken before the build (steps are the only writers while a build runs).
+        if written_now and p in written_now:
+            entry = dict(entry, sha=written_now[p])
         if p in ledger.user_files and (p in static or p not in ledger.ever_declared):
             raise Violation(f"{prop}/deleted-user-provided-file",
                             f"{where}: {p} is provided by the user (static) and was deleted")
